@@ -9,6 +9,7 @@ From PX.Spec Require C15_link.
 From PX.Model Require Export MapEnv.
 From PX.Model Require UnitsOut UnitsWalk.
 From PX.Model Require UnitsPipe.
+From PX.Model Require UnitsCtx.
 
 
 Definition show_ostr (o : option str) : str := show_opt show_hex o.
@@ -222,6 +223,8 @@ Definition dispatch_env (e : menv) (unit : str) (args : list str) : str :=
   else if str_eqb unit (sl "c15_spec") then unit_c15_spec e args
   else if str_eqb unit (sl "walk") then UnitsWalk.unit_walk e args
   else if str_eqb unit (sl "document") then UnitsWalk.unit_document e args
+  else if str_eqb unit (sl "ctxiter") then UnitsCtx.unit_ctxiter e args
+  else if str_eqb unit (sl "ctxapi") then UnitsCtx.unit_ctxapi e args
   else if str_eqb unit (sl "pipeline") then UnitsPipe.unit_pipeline e args
   else if str_eqb unit (sl "html") then UnitsOut.unit_html args
   else if str_eqb unit (sl "xmlout") then UnitsOut.unit_xmlout (fun name => load_named e name [] (sl "B")) args
